@@ -331,6 +331,14 @@ pub fn check_agreement(xs: &[MVal], n: usize, sep: &str, salt: u64, l: &mut Loca
             return fail(tpl, exp, &got);
         }
     }
+    // positions that cannot exist (negative, far out of range, of another kind): no contract beyond "does not panic"
+    for bad in [tera::Value::from(-(n as i64) - 1), tera::Value::from(i64::MIN), tera::Value::from(u64::MAX), tera::Value::from(i128::MIN), tera::Value::from(1.5), tera::Value::from("1")] {
+        let got = run_t("nth", &[("xs", t.clone()), ("n", bad.clone())]);
+        if let Out::Panic(p) = &got {
+            return Err(Fail::new("C16/panic/nth", format!("{} | nth(n={}) panicked: {p}", canon(&arr), bad), case.clone()));
+        }
+        l.eval();
+    }
     let exp = format!("{}|{}", xs.len(), "x".repeat(xs.len()));
     let got = run_t("len", &[("xs", t.clone())]);
     if got != Out::Ok(exp.clone()) {
